@@ -288,6 +288,19 @@ def validate_raw_traces(results, specs, chunk=300):
 
 # ------------------------------------------------------------------ Lookup.tla action-level traces
 
+def expand_hostparent(path, res, case_spec):
+    """the harness expands "@HOSTPARENT" to the chain of directory names of a `mirror` node; recover it from the initial snapshot"""
+    if "@HOSTPARENT" not in (path or ""):
+        return path
+    mid = next((n["id"] for n in case_spec.get("tree", []) if n.get("k") == "mirror"), None)
+    up = {d["c"]: (d["p"], d["n"]) for d in res["init"]["dents"]}
+    names, cur = [], mid
+    while cur in up and cur != 2 and len(names) < 64:
+        names.append(up[cur][1])
+        cur = up[cur][0]
+    return path.replace("@HOSTPARENT", "/".join(reversed(names)))
+
+
 def project_lookup(res, case_spec, scratch_prefix=None):
     """relevant syscalls of an emulated resolve -> TraceLookup events"""
     cid = str(res.get("id"))
@@ -302,7 +315,7 @@ def project_lookup(res, case_spec, scratch_prefix=None):
                 cur = int(tag.split()[1])
                 b = blank("begin", cid)
                 cc = calls[cur]
-                b["body"] = (cc.get("path") or "").split("/")
+                b["body"] = (expand_hostparent(cc.get("path") or "", res, case_spec)).split("/")
                 b["op"] = cc.get("op")
                 fl = cc.get("oflags", 0)
                 nof = bool(cc.get("nofollow")) or cc.get("op") == "readlink" or bool(fl & O["NOFOLLOW"])
